@@ -235,7 +235,7 @@ class Recorder:
                     cands=cands, exact=st.get('exact', []), again=bool(st.get('again', False)))
             try:
                 task = await aio.async_register_service(info, cooperating_responders=coop,
-                                                        allow_name_change=st.get('rename', False))
+                                                        allow_name_change=st.get('rename', False), **({} if sp.get('strict', True) else {'strict': False}))
                 self.infos[sp['sid']] = info
                 sp2 = dict(sp)
                 sp2['name'] = info.name
@@ -968,6 +968,11 @@ def gen_c09(rng: random.Random, sid: str, thorough: bool = False) -> dict:
     sp = svcs[0]
     if rng.random() < 0.2:
         sp = dict(sp, host=None)          # the host name defaults to the instance name
+    if rng.random() < 0.2 and sp['type'] != TYPES[2]:
+        # a service type that only the non-strict rules accept (underscore in the service name, or longer than 15 characters),
+        # registered with strict=False: probing, conflicts and renaming work as for any other type
+        lax_type = rng.choice(['_ibisip_http._tcp.local.', '_androidtvremote2._tcp.local.'])
+        sp = dict(sp, type=lax_type, name=sp['name'][:-len(sp['type'])] + lax_type, strict=False)
     others = svcs[1:2]
     steps: List[dict] = []
     t = 0
